@@ -1,14 +1,15 @@
-HOOK_COMMITS = ["50186a2"]
-NOTES = ("Fix commits in /repo (genuine defects, see known_findings.json 'fixed'): f40c5b0, 05011a7, a30fe62, 1409e77. "
-         "Proof tiers: G = any arithmetic, S = any arithmetic satisfying the IEEE contract FloatSpec, B = S with explicit rounding-error bounds, E = exact reals, R = instantiated on the proved rounding arithmetic R64; see DESIGN.md §0/§6.")
+HOOK_COMMITS = ['50186a2']
+NOTES = ("Fix commits in /repo (genuine defects, see known_findings.json 'fixed'): f40c5b0, 05011a7, a30fe62, 1409e77. Proof tiers: G = any arithmetic, S = any "
+         "arithmetic satisfying the IEEE contract FloatSpec, B = S with explicit rounding-error bounds, E = exact reals, R = instantiated on the proved rounding "
+         "arithmetic R64; see DESIGN.md §0/§6. ")
 NOT_YET = {}
-S_NOTE = ("Theorems are about the Lean model; S-tier ones assume the FloatSpec contract (IEEE-754 binary64 semantics + glibc sanity bounds, "
-          "proved to hold of exact real arithmetic AND of a rounding arithmetic - round-to-nearest on the binary64 grid with correctly rounded libm - in "
-          "Spec/RealWitness.lean and Spec/RoundWitness.lean); B = S with explicit rounding-error bounds; the model is tied to the code by the bit-exact correspondence on this run's "
-          "generated lines only. Axioms: propext, Classical.choice, Quot.sound.")
-G = "G = proved for every arithmetic (no assumption on float ops; transfers to the machine by the tie alone)"
+S_NOTE = ("Theorems are about the Lean model; S-tier ones assume the FloatSpec contract (IEEE-754 binary64 semantics + glibc sanity bounds, proved to hold of "
+          "exact real arithmetic AND of a rounding arithmetic - round-to-nearest on the binary64 grid with correctly rounded libm - in Spec/RealWitness.lean and "
+          "Spec/RoundWitness.lean); B = S with explicit rounding-error bounds; the model is tied to the code by the bit-exact correspondence on this run's "
+          "generated lines only. Axioms: propext, Classical.choice, Quot.sound. ")
+G = 'G = proved for every arithmetic (no assumption on float ops; transfers to the machine by the tie alone)'
 TEXT = {
- "C01": {"level": "Proved (S): Angle::new establishes the reachable-state invariant (finite remainder in [0, pi/2 - 1e-10]) for |p|<=1e200, |d|>=1e-200, |p*pi/d|<=2^42 - "
+ "C01": {"level": ("Proved (S): Angle::new establishes the reachable-state invariant (finite remainder in [0, pi/2 - 1e-10]) for |p|<=1e200, |d|>=1e-200, |p*pi/d|<=2^42 - "
                   "incl. the negative path and the blade/fmod reconciliation of the repaired code; new_with_blade, new_from_cartesian; every angle operation preserves "
                   "it; history theorem by induction over any operation sequence; usize/i64 headroom: one operation raises the blade count by at most the operand's count "
                   "+ 4, so histories of up to 2^20 operations inside the 2^40 domain stay below 2^62 (the model's Nat and the code's usize cannot differ, no overflow "
@@ -16,97 +17,118 @@ TEXT = {
                   "re-encoding (blade sums to 2^39), likewise a-b, geo, reject, Angle/f64, pow, scale_rotate, dot, wedge, project, reflect, cos, sin. The headline "
                   "theorems are also stated on the proved rounding arithmetic R64 with no arithmetic hypothesis left (R). Proved (G): the panics of "
                   "inv/div/normalize/invert_circle occur exactly when the tested magnitude compares equal to 0. Partial: constructor domain is bounded by 1e200 (beyond "
-                  "it the extreme-scale generator shapes and the tie are the evidence). ",
+                  "it the extreme-scale generator shapes and the tie are the evidence). "),
          "note": S_NOTE},
- "C02": {"level": "Proved (S): exact quarter turns new(k,2)=(k blades, rem 0.0) for all k<2^53 and create_dimension; constant table (0, pi/2, pi, 3pi/2, -pi/2, 4pi); "
+ "C02": {"level": ("Proved (S): exact quarter turns new(k,2)=(k blades, rem 0.0) for all k<2^53 and create_dimension; constant table (0, pi/2, pi, 3pi/2, -pi/2, 4pi); "
                   "general path: blade = floor(nt/(pi/2)) and blade*(pi/2)+rem = nt exactly, or snapped to the next blade within 1e-10; new_with_blade adds exactly k "
                   "blades; scalar sign law. Proved (B, rounded arithmetic): the raw total is within 8*2^-53 relative of p*pi_f/d in both orders of operations; for p>=0, "
                   "d>0 and either path blade*(pi_f/2)+rem is p*pi_f/d within 1e-10 + 8*2^-53 relative, hence blade = floor(2p/d) whenever p*pi_f/d is clear of a quarter- "
                   "turn boundary by that margin; Angle::new(x, PI) for x<0 is x plus a whole number of turns within 1e-10 + (14|x|+46)*2^-53. Proved (E, exact reals): "
                   "Angle::new(p,d) denotes p*pi/d modulo whole turns within 1e-10 for every real p,d and every path (fast, negative, general), a negative argument gives "
                   "the forward rotation; new_from_cartesian has total arg(x+iy) and the Euclidean norm. Partial: negative p/d with a general divisor in rounded "
-                  "arithmetic (E-tier + oracle with exact rational floor(2p/d)). ", "note": S_NOTE},
- "C03": {"level": "Proved for all canonical angles of any blade count: 12 spellings identical (G), bit-for-bit commutativity, zero identity, "
-                  "blade = sum with at most one carry, invariant preserved, |T(a+b) - (T a + T b)| < 1e-10 + 1e-15 in rounded arithmetic (S); "
-                  "associativity of totals within twice the tolerance (at most one snap per bracketing) (S). Tie: all 12 spellings bit-exact.",
+                  "arithmetic (E-tier + oracle with exact rational floor(2p/d)). "),
          "note": S_NOTE},
- "C04": {"level": "Proved for all canonical angles of any blade count: 8+2 spellings identical and the blade-wrap laws (G); a-a is literally the zero angle, the "
+ "C03": {"level": ("Proved for all canonical angles of any blade count: 12 spellings identical (G), bit-for-bit commutativity, zero identity, blade = sum with at most one "
+                  "carry, invariant preserved, |T(a+b) - (T a + T b)| < 1e-10 + 1e-15 in rounded arithmetic (S); associativity of totals within twice the tolerance (at "
+                  "most one snap per bracketing) (S). Tie: all 12 spellings bit-exact. "),
+         "note": S_NOTE},
+ "C04": {"level": ("Proved for all canonical angles of any blade count: 8+2 spellings identical and the blade-wrap laws (G); a-a is literally the zero angle, the "
                   "difference is canonical, T(a-b) = T(a)-T(b) within 1e-10+1e-15 with no spurious turns when T(b)<=T(a), and otherwise a forward rotation congruent mod "
                   "whole turns with blade<=4 (=4 only with remainder 0); (a+b)-b returns a within two tolerances (S). Angle / f64 with a positive divisor, in rounded "
                   "arithmetic through all seven roundings: the result is canonical, both spellings agree and its total is T(a)/k within 1e-10 + 16*2^-53 relative - no "
-                  "turn appears or disappears (B); the same in exact arithmetic (E). ",
+                  "turn appears or disappears (B); the same in exact arithmetic (E). "),
          "note": S_NOTE},
- "C05": {"level": "Proved: product = (one float product of magnitudes, angle sum), all division spellings = multiplication by the inverse, panics exactly on "
-                  "zero magnitude, Angle*/+Geonum only rotate, scale = mul by scalar, pow magnitude (G); bit-for-bit commutativity, [1,0] identity, inverse "
-                  "= reciprocal magnitude + exactly 2 blades with remainder untouched, scale sign law (+2 blades iff factor<0, none for +-0) (S). "
-                  "Partial: associativity, powf rounding.", "note": S_NOTE},
- "C06": {"level": "Proved: sub = add of the half-turned operand, all spellings and translate identical (G); a-a has magnitude exactly 0.0; every branch of + and - "
+ "C05": {"level": ("Proved: product = (one float product of magnitudes, angle sum), all division spellings = multiplication by the inverse, panics exactly on zero "
+                  "magnitude, Angle*/+Geonum only rotate, scale = mul by scalar, pow magnitude (G); bit-for-bit commutativity, [1,0] identity, inverse = reciprocal "
+                  "magnitude + exactly 2 blades with remainder untouched, scale sign law (+2 blades iff factor<0, none for +-0), the float totals of a product add up to "
+                  "one snap and one rounding (S). Partial: associativity, powf rounding. "),
+         "note": S_NOTE},
+ "C06": {"level": ("Proved: sub = add of the half-turned operand, all spellings and translate identical (G); a-a has magnitude exactly 0.0; every branch of + and - "
                   "returns a finite non-negative magnitude for magnitudes in [0,1e100] (never NaN - relies on the radicand clamp fix); zero operand with the same angle "
                   "leaves magnitude and angle unchanged (S). Proved (E, exact reals): the Cartesian point of a+b is the component-wise sum within 1e-10*(1+|a|+|b|) in "
                   "every branch (same angle, opposite incl. cancellation, law of cosines + atan2 + re-encoding), likewise a-b; a+b and b+a denote the same point; running "
                   "sums by induction over any list. Proved (B, rounded arithmetic, general branch): the magnitude is within (|a|+|b|)*(2^-24+2^-50) of the law-of-cosines "
                   "value (the sqrt(eps)-of-scale bound, attained only under near-total cancellation), and the direction - the float total of the result - is the libm "
-                  "atan2 of the rounded component sums plus a whole number of turns within 1e-10 + (40*cb+140)*2^-53 (cb = combined blade count). Not proved (explored "
-                  "with a Cartesian oracle): the conditioning of atan2 on the two rounded component sums under cancellation. ", "note": S_NOTE},
- "C07": {"level": "Proved: grade = blade mod 4 and predicates, base_angle, magnitudes untouched, is_opposite <-> blade counts differ by exactly two "
-                  "(unbounded integers) and the remainder test (G); each step operator's exact blade delta (2,2,2,2,1,1,3,3) with remainder value "
-                  "and canonicity preserved; history theorem by induction over any sequence of step operations of any length; 4-cycle "
-                  "corollaries (S). Mixed histories with add/sub/mul/div are covered by C03/C04 step theorems plus the oracle's rule check.",
+                  "atan2 of the rounded component sums plus a whole number of turns within 1e-10 + (40*cb+140)*2^-53 (cb = combined blade count). The closure (B): the "
+                  "Cartesian components of a+b (true pi) are the component-wise sums of the operands' Cartesian components within (|a|+|b|)*(2e-7 + 1.1*(1e-10 + "
+                  "(40*cb+170)*2^-53)) + 1e-28, assembled from the rounded component sums, the magnitude against the true norm, the libm atan2 against the exact argument "
+                  "(incl. the negative real axis) and the re-encoding. Residue: the sqrt(eps)*scale term of the bound is uniform rather than only under cancellation; the "
+                  "same-angle / opposite branches are exact by construction (E-tier + oracle). "),
          "note": S_NOTE},
- "C08": {"level": "Proved for EVERY arithmetic and every shift n (unbounded): the grade angle of a difference is the same value under 4n/4m blade shifts, hence dot, "
-                  "orthogonality, distance, Angle::project, cos/sin, cone membership are identical structures (bit-identical on the machine); wedge, meet, "
-                  "project shift their angle by exactly the operands' shifts (G); project_to_dimension(k) = (k+4n) (S). Partial: Cartesian value of sums under "
-                  "shifts (float tolerance grows with ulp(blade*pi/2)) explored by oracle.", "note": S_NOTE},
- "C09": {"level": "Proved: dot = |value| at the base angle or base+pi exactly when the computed value tests negative, orthogonality test definition (G); the two angles "
+ "C07": {"level": ("Proved: grade = blade mod 4 and predicates, base_angle, magnitudes untouched, is_opposite <-> blade counts differ by exactly two (unbounded integers) "
+                  "and the remainder test (G); each step operator's exact blade delta (2,2,2,2,1,1,3,3) with remainder value and canonicity preserved; history theorem by "
+                  "induction over any sequence of step operations of any length; 4-cycle corollaries (S). Mixed histories with add/sub/mul/div are covered by C03/C04 "
+                  "step theorems plus the oracle's rule check. "),
+         "note": S_NOTE},
+ "C08": {"level": ("Proved for EVERY arithmetic and every shift n (unbounded): the grade angle of a difference is the same value under 4n/4m blade shifts, hence dot, "
+                  "orthogonality, distance, Angle::project, cos/sin, cone membership are identical structures (bit-identical on the machine); wedge, meet, project shift "
+                  "their angle by exactly the operands' shifts (G); project_to_dimension(k) = (k+4n) (S); in rounded arithmetic 4n quarter turns on a summand move the "
+                  "Cartesian components of a general-branch sum by at most twice the C06 accuracy bound (B). Partial: Cartesian value of sums under shifts (float "
+                  "tolerance grows with ulp(blade*pi/2)) explored by oracle. "),
+         "note": S_NOTE},
+ "C09": {"level": ("Proved: dot = |value| at the base angle or base+pi exactly when the computed value tests negative, orthogonality test definition (G); the two angles "
                   "are blade 0 / blade 2 with remainder 0; magnitude >= 0 and <= rnd(|a||b|) (Cauchy-Schwarz in rounded arithmetic) (S); the returned signed value is "
-                  "|a||b|cos(Tb-Ta) (true pi) within |a||b|(1e-10+1e-14) in rounded arithmetic (B); value, symmetry, a.a=|a|^2 in exact arithmetic (E). ", "note": S_NOTE},
- "C10": {"level": "Proved: geo = dot + wedge and meet = dual(wedge(dual,dual)) definitionally; wedge magnitude/angle structure incl. the half turn iff sine tests "
+                  "|a||b|cos(Tb-Ta) (true pi) within |a||b|(1e-10+1e-14) in rounded arithmetic, and a.b, b.a agree within twice that (B); value, symmetry, a.a=|a|^2 in "
+                  "exact arithmetic (E). "),
+         "note": S_NOTE},
+ "C10": {"level": ("Proved: geo = dot + wedge and meet = dual(wedge(dual,dual)) definitionally; wedge magnitude/angle structure incl. the half turn iff sine tests "
                   "negative (G); wedge magnitude in [0, rnd(|a||b|)], angle canonical with blade in [ba+bb+1, ba+bb+4] (S); magnitude |a||b||sin(Tb-Ta)| within an "
-                  "explicit rounding bound (B); sine value, parallel => 0, anticommutation (same magnitude, exactly two blades on), Lagrange identity "
-                  "dot^2+wedge^2=(|a||b|)^2 exactly (E). ", "note": S_NOTE},
- "C11": {"level": "Proved: projection independent of |b| beyond the 1e-10 test, structure (|a||cos| along b's angle, +pi iff factor negative), tiny-axis branch total, "
+                  "explicit rounding bound, and the wedge's float total is Ta+Tb+pi_f/2 (+ a half turn iff the computed sine tests negative) up to one snap and one "
+                  "rounding (B); sine value, parallel => 0, anticommutation (same magnitude, exactly two blades on), Lagrange identity dot^2+wedge^2=(|a||b|)^2 exactly "
+                  "(E). "),
+         "note": S_NOTE},
+ "C11": {"level": ("Proved: projection independent of |b| beyond the 1e-10 test, structure (|a||cos| along b's angle, +pi iff factor negative), tiny-axis branch total, "
                   "reject = a - proj, angle/dimension forms (G); 0 <= |proj| <= |a|, projection angle canonical with b's blade or +2 and b's remainder (S); in rounded "
                   "arithmetic: Angle::project is cos(T onto - T self) within 1e-10+8e-15, the projection length is |a||cos(Tb-Ta)| within |a|(1e-10+1e-14), and "
                   "project_to_dimension(k) is |g|cos(k*pi/2 - T g) within |g|(1e-10+1e-14) for every k < 2^53 with no growth in k (B); the projection's Cartesian point "
-                  "is (a.b^)b^, projection + rejection = a as points, rejection orthogonal to b, Pythagoras (E). ", "note": S_NOTE},
- "C12": {"level": "Proved: rotation returns the magnitude field itself and the angle sum; reflection never reads the axis length; scale-rotate branch law (G); full turn "
+                  "is (a.b^)b^, projection + rejection = a as points, rejection orthogonal to b, Pythagoras (E). "),
+         "note": S_NOTE},
+ "C12": {"level": ("Proved: rotation returns the magnitude field itself and the angle sum; reflection never reads the axis length; scale-rotate branch law (G); full turn "
                   "adds exactly 4 blades keeping grade and remainder; rotation carries; reflection result canonical with at least twice the axis's blades (S); in ROUNDED "
                   "arithmetic reflection sends the float total t to 2*alpha - t modulo whole turns within 3 snap tolerances, a number on the axis keeps its direction, "
                   "reflecting twice restores direction (6 tolerances) and the magnitude field (S/B); rotations add totals, same across the negated axis, scale-rotate "
-                  "multiplies the Cartesian vector by f*e^{i r} incl. negative factors (E). ", "note": S_NOTE},
- "C13": {"level": "Proved: mag_diff definition; invert_circle panics exactly when the offset magnitude compares equal to zero (G); distance_to is finite, non-negative "
-                  "(never NaN - relies on the clamp fix) and sits at blade 0 with remainder 0; inverting the circle's own centre panics (S); distance within a "
-                  "sqrt(eps)-of-scale bound of the law-of-cosines value through all roundings (B); distance = Euclidean distance (metric axioms), = |a-b|, inversion: "
-                  "same ray, |p'-c||p-c| = r^2, circle fixed, the reference inversion is an involution and the code's inverted offset is that reference (E). Partial "
-                  "(explored): the composed float bound on p''-p for nearly coincident points. ", "note": S_NOTE},
- "C14": {"level": "Proved: same-angle branch keeps the receiver's angle field; opposite branch: cancellation gives (0.0, new_with_blade(ba+bb)) literally blade ba+bb rem "
-                  "0.0, otherwise the larger summand's angle field (G/S); the equality tests are blade-exact so the branches fire only for equal blades / "
-                  "blades exactly two apart (S); general regime in exact arithmetic: blade sum <= result blade <= blade sum + 4, = +4 only with remainder 0 (E). "
-                  "That bound is FALSE of the float code for blade sums above ~1e5 (known finding, witness replayed).",
+                  "multiplies the Cartesian vector by f*e^{i r} incl. negative factors (E). "),
          "note": S_NOTE},
- "C15": {"level": "Proved: tan = sin.div(cos), adj/opp = cos/sin scaled (definitional), cos/sin = |libm value| at base or base+pi iff the value tests negative (G); "
+ "C13": {"level": ("Proved: mag_diff definition; invert_circle panics exactly when the offset magnitude compares equal to zero (G); distance_to is finite, non-negative "
+                  "(never NaN - relies on the clamp fix) and sits at blade 0 with remainder 0; inverting the circle's own centre panics (S); distance within a "
+                  "sqrt(eps)-of-scale bound of the law-of-cosines value through all roundings, within (|a|+|b|)*1.1e-5 of the TRUE Euclidean distance, symmetric and "
+                  "obeying the triangle inequality up to those bounds, |a-b| (general branch) within (|a|+|b|)*1.5e-7 of it (B); distance = Euclidean distance (metric "
+                  "axioms), = |a-b|, inversion: same ray, |p'-c||p-c| = r^2, circle fixed, the reference inversion is an involution and the code's inverted offset is "
+                  "that reference (E). Partial (explored): the composed float bound on p''-p for nearly coincident points. "),
+         "note": S_NOTE},
+ "C14": {"level": ("Proved: same-angle branch keeps the receiver's angle field; opposite branch: cancellation gives (0.0, new_with_blade(ba+bb)) literally blade ba+bb rem "
+                  "0.0, otherwise the larger summand's angle field (G/S); the equality tests are blade-exact so the branches fire only for equal blades / blades exactly "
+                  "two apart (S); general regime in exact arithmetic: blade sum <= result blade <= blade sum + 4, = +4 only with remainder 0 (E). That bound is FALSE of "
+                  "the float code for blade sums above ~1e5 (known finding, witness replayed). "),
+         "note": S_NOTE},
+ "C15": {"level": ("Proved: tan = sin.div(cos), adj/opp = cos/sin scaled (definitional), cos/sin = |libm value| at base or base+pi iff the value tests negative (G); "
                   "lattice placement (cos on blade 0/2, sin on blade 1/3, remainder 0), magnitudes in [0,1] (S); magnitudes within the libm error of |cos T|,|sin T| for "
                   "the true-pi total in rounded arithmetic (B); cos^2+sin^2=1, |tan T| off the poles with odd grade and period pi, adj/opp are the Cartesian components "
-                  "(E). ", "note": S_NOTE},
- "C16": {"level": "Proved: == implies identical blades; Geonum == adds magnitude; partial_cmp = Some(cmp) (G); cmp is the lexicographic order on (blade, remainder "
-                  "value): never panics on finite fields, reflexive, antisymmetric, transitive, total; cmp=Equal implies ==; == implies remainders within "
-                  "1e-15 (S); over exact reals sort never panics and returns a sorted permutation (List.mergeSort with the proved lawful order) (E). '== implies cmp=Equal' is FALSE of the code (known finding, witness replayed); "
-                  "proved only for equal remainder values (_partial).", "note": S_NOTE},
- "C17": {"level": "Proved for every arithmetic (G): truncate/select_cone are exactly List.filter by the coded predicates (sublists, order kept, strictness, zero "
-                  "members/axis never selected); scale_all/rotate_all are List.map (length kept); total_magnitude is the left fold from -0.0; dominant is None "
-                  "exactly on the empty collection and otherwise a member; conversions/index/iteration are the member sequence itself.", "note": S_NOTE},
- "C18": {"level": "Proved for every arithmetic (G): each helper of the six optional traits equals its documented closed form over core operations (mostly "
-                  "definitional by design - the weight is on the bit-exact tie, where every helper is an op).", "note": S_NOTE},
- "C19": {"level": "Proved: activations return the angle field untouched, refraction/propagation the magnitude field, dispersion magnitude 1.0, ReLU gate law, negative "
+                  "(E). "),
+         "note": S_NOTE},
+ "C16": {"level": ("Proved: == implies identical blades; Geonum == adds magnitude; partial_cmp = Some(cmp) (G); cmp is the lexicographic order on (blade, remainder "
+                  "value): never panics on finite fields, reflexive, antisymmetric, transitive, total; cmp=Equal implies ==; == implies remainders within 1e-15 (S); over "
+                  "exact reals sort never panics and returns a sorted permutation (List.mergeSort with the proved lawful order) (E). '== implies cmp=Equal' is FALSE of "
+                  "the code (known finding, witness replayed); proved only for equal remainder values (_partial). "),
+         "note": S_NOTE},
+ "C17": {"level": ("Proved for every arithmetic (G): truncate/select_cone are exactly List.filter by the coded predicates (sublists, order kept, strictness, zero "
+                  "members/axis never selected); scale_all/rotate_all are List.map (length kept); total_magnitude is the left fold from -0.0; dominant is None exactly on "
+                  "the empty collection and otherwise a member; conversions/index/iteration are the member sequence itself. "),
+         "note": S_NOTE},
+ "C18": {"level": ("Proved for every arithmetic (G): each helper of the six optional traits equals its documented closed form over core operations (mostly definitional by "
+                  "design - the weight is on the bit-exact tie, where every helper is an op). "),
+         "note": S_NOTE},
+ "C19": {"level": ("Proved: activations return the angle field untouched, refraction/propagation the magnitude field, dispersion magnitude 1.0, ReLU gate law, negative "
                   "charge = half turn (G); sigmoid output strictly between 0 and a non-zero in-domain magnitude, |tanh output| <= magnitude (S); Snell's law whenever "
                   "|sin t_in| <= n (closed end included), 1/m^2, q/r^n, 1/r; wedge = planar cross product; the quadrilateral helper is the two-triangle cross-product "
                   "area of the Cartesian corners, invariant under common translation and rotation, = shoelace (E). Partial (explored by metamorphic oracle incl. the "
-                  "critical-angle tie): the float tolerances of these relations. ", "note": S_NOTE},
- "C20": {"level": "The feature model (flags, default set, `all` alias, module gates, re-export gates, inner gates, cross references, feature gates in core "
-                  "files) is regenerated from the source on every run and the closure / independence / usability theorems are re-decided by the Lean kernel "
-                  "over all 64 subsets (`decide`); the tie is exhaustive: all 64 subsets plus `all` are really built with default features off and run, "
-                  "comparing build success, helper availability and bit-identical digests of a fixed battery.",
-         "note": "rustc's name resolution is abstracted as a dependency-closure relation; the translator is a regular-expression reader that fails closed; "
-                 "digests cover a fixed battery of inputs. Axioms: none beyond propext/Classical.choice/Quot.sound (decide, no native_decide).",
-         "technique": "Lean 4 kernel `decide` over a feature model regenerated from source + exhaustive real builds of all 65 configurations"},
+                  "critical-angle tie): the float tolerances of these relations. "),
+         "note": S_NOTE},
+ "C20": {"level": ("The feature model (flags, default set, `all` alias, module gates, re-export gates, inner gates, cross references, feature gates in core files) is "
+                  "regenerated from the source on every run and the closure / independence / usability theorems are re-decided by the Lean kernel over all 64 subsets "
+                  "(`decide`); the tie is exhaustive: all 64 subsets plus `all` are really built with default features off and run, comparing build success, helper "
+                  "availability and bit-identical digests of a fixed battery. "),
+         "note": ("rustc's name resolution is abstracted as a dependency-closure relation; the translator is a regular-expression reader that fails closed; digests cover "
+                  "a fixed battery of inputs. Axioms: none beyond propext/Classical.choice/Quot.sound (decide, no native_decide). "),
+         "technique": ("Lean 4 kernel `decide` over a feature model regenerated from source + exhaustive real builds of all 65 configurations ")},
 }
